@@ -137,4 +137,188 @@ theorem runAll_log (cfg : Cfg) : ∀ (qs : List (Bool × List Char)) (d : List D
       simp only [Except.map] at h
       simp only [h, runAll_log cfg rest (d ++ p.2), List.append_assoc]
 
+/-! ### Small facts used by `Props/FactQuery` -/
+
+instance (b : List Char) : Decidable (Blank b) := by unfold Blank; exact inferInstance
+
+theorem renderQuery_fact (first : List Char) (more : More) (b0 b1 : List Char) :
+    renderQuery (.fact first more) [b0, b1] = b0 ++ phraseText first more ++ b1 := by
+  simp [renderQuery, render, Spec.Arith.nextBlank]
+
+theorem queryLayout_fact (first : List Char) (more : More) (b0 b1 : List Char) (h0 : Blank b0)
+    (h1 : Blank b1) : QueryLayoutOKF (.fact first more) [b0, b1] :=
+  ⟨h0, trivial, h1⟩
+
+theorem strip_err_inv {r : Except EvalErr Numeric} {k : ErrKind}
+    (h : strip r = .error (.err k 0 0)) : ∃ s t, r = .error (.err k s t) := by
+  cases r with
+  | ok v => cases h
+  | error e =>
+    cases e with
+    | err k' s t =>
+      simp only [strip, stripErr, Except.error.injEq, EvalErr.err.injEq] at h
+      exact ⟨s, t, by rw [h.1]⟩
+    | panic s => cases h
+    | unsupported s => cases h
+
+theorem strip_ok_inv {r : Except EvalErr Numeric} {v : Numeric} (h : strip r = .ok v) :
+    r = .ok v := by
+  cases r with
+  | ok w => exact h
+  | error e => cases h
+
+theorem foldF_bin {R : Tree → FExpr → Prop} {p : Nat} {acc e : FExpr} {ts : List Tree}
+    (h : FoldF R p acc ts e) : ts ≠ [] ∨ (∃ op a b, acc = .bin op a b) → ∃ op a b, e = .bin op a b := by
+  induction h with
+  | nil p acc => intro h; exact h.elim (fun h => absurd rfl h) id
+  | cons _ _ _ _ ih => intro _; exact ih (Or.inr ⟨_, _, _, rfl⟩)
+
+/-- Inversion: the tree of a phrase. -/
+theorem repF_fact_inv {x : Tree} {first : List Char} {more : More} (h : RepF x (.fact first more)) :
+    x.kind = (if more = [] then Syntax.WORD else Syntax.SENTENCE) ∧ x.hasChildren = true ∧
+      x.text = phraseText first more := by
+  cases h with
+  | fact hk hc ht => exact ⟨hk, hc, ht⟩
+  | chain _ hne _ _ hf =>
+    obtain ⟨op, a, b, h⟩ := foldF_bin hf (Or.inl hne)
+    cases h
+
+/-! ### The byte offset of a single phrase -/
+
+theorem queryLoop_ws_off (cfg : Cfg) (W : List Tree) (hW : WSTrees W) (rest : List Tree) :
+    ∀ (off : Nat) (d : List Desc), queryLoop cfg (kidsAt off (W ++ rest)) d =
+      queryLoop cfg (kidsAt (off + utf8Len (Tree.textList W)) rest) d := by
+  induction W with
+  | nil => intro off d; simp [Tree.textList, utf8Len]
+  | cons t W ih =>
+    intro off d
+    obtain ⟨id, text, rfl⟩ := hW t (by simp)
+    have := ih (fun x hx => hW x (by simp [hx])) (off + (Tree.tok id .WHITESPACE text).len) d
+    simp only [Tree.len, Tree.text] at this
+    simp only [List.cons_append, kidsAt, queryLoop, Tree.kind, beq_self_eq_true, ↓reduceIte,
+      Tree.textList, Tree.text, Tree.len, utf8Len_append]
+    rw [this, Nat.add_assoc]
+
+theorem leavesList_ws {W : List Tree} (h : WSTrees W) :
+    ∀ t ∈ Tree.leavesList W, t.kind = .WHITESPACE := by
+  induction W with
+  | nil => intro t ht; simp [Tree.leavesList] at ht
+  | cons x W ih =>
+    intro t ht
+    obtain ⟨id, text, rfl⟩ := h x (by simp)
+    simp only [Tree.leavesList, Tree.leaves, List.singleton_append, List.mem_cons] at ht
+    rcases ht with rfl | ht
+    · rfl
+    · exact ih (fun y hy => h y (by simp [hy])) t ht
+
+/-- In the forest of a single phrase the leading blank leaves are exactly the white space typed
+in front of the phrase. -/
+theorem phrase_lead (first : List Char) (more : More) (b0 b1 : List Char)
+    (hp : PhraseOK first more) (h0 : Blank b0) (h1 : Blank b1) (forest Wt Wt' : List Tree) (x : Tree)
+    (hparse : parseRoot (b0 ++ phraseText first more ++ b1) = .ok forest)
+    (hf : forest = Wt ++ [x] ++ Wt') (hWt : WSTrees Wt) (hx : x.text = phraseText first more) :
+    Tree.textList Wt = b0 := by
+  have hl := Props.C12.C12_parse_leaves _ forest hparse
+  have hlex : Lexer.lex (b0 ++ phraseText first more ++ b1) =
+      blankTok b0 ++ (⟨.WORD, first⟩ :: (moreToks more ++ blankTok b1)) := by
+    have := lex_queryF (.fact first more) [b0, b1] hp (queryLayout_fact first more b0 b1 h0 h1)
+    rw [renderQuery_fact] at this
+    rw [this]
+    simp [queryToksF, toksF, phraseToks, blank1, rest1, afterF, render, Spec.Arith.nextBlank]
+  rw [hlex, hf, Tree.leavesList_append, Tree.leavesList_append, Tree.leavesList_singleton] at hl
+  have hLws := leavesList_ws hWt
+  have hXtext : (Tree.leaves x).flatMap Token.text = phraseText first more := by
+    rw [← Tree.text_eq_leaves, hx]
+  obtain ⟨c, r, hfirst, hwc, _⟩ := wordLit_head hp.1
+  rw [Tree.textList_eq_leaves]
+  by_cases hb : b0 = []
+  · subst hb
+    simp only [blankTok, ↓reduceIte, List.nil_append] at hl
+    cases hL : Tree.leavesList Wt with
+    | nil => simp
+    | cons t L2 =>
+      rw [hL] at hl
+      simp only [List.cons_append, List.cons.injEq] at hl
+      have := hLws t (by rw [hL]; simp)
+      rw [hl.1] at this
+      cases this
+  · simp only [blankTok, hb, ↓reduceIte, List.singleton_append] at hl
+    cases hL : Tree.leavesList Wt with
+    | nil =>
+      exfalso
+      rw [hL] at hl
+      simp only [List.nil_append] at hl
+      cases hX : Tree.leaves x with
+      | nil =>
+        rw [hX] at hXtext
+        simp [phraseText, hfirst] at hXtext
+      | cons t X2 =>
+        rw [hX] at hl hXtext
+        simp only [List.cons_append, List.cons.injEq] at hl
+        rw [hl.1] at hXtext
+        cases b0 with
+        | nil => exact hb rfl
+        | cons w b0' =>
+          simp only [List.flatMap_cons, List.cons_append, phraseText, hfirst,
+            List.cons.injEq] at hXtext
+          have hw := h0 w (by simp)
+          rw [hXtext.1, QQ.wordChar_noWS hwc] at hw
+          exact Bool.false_ne_true hw
+    | cons t L2 =>
+      rw [hL] at hl
+      simp only [List.cons_append, List.cons.injEq] at hl
+      cases L2 with
+      | nil => simp [hl.1]
+      | cons t2 L3 =>
+        exfalso
+        simp only [List.cons_append, List.cons.injEq] at hl
+        have := hLws t2 (by rw [hL]; simp)
+        rw [hl.2.1] at this
+        cases this
+
+/-- `Eval.query` on a single phrase, with the exact byte spans: the one result is the lookup of
+the phrase at the node that starts after the leading white space and covers the phrase. -/
+theorem query_phrase_exact (cfg : Cfg) (first : List Char) (more : More) (b0 b1 : List Char)
+    (hp : PhraseOK first more) (h0 : Blank b0) (h1 : Blank b1) :
+    Eval.query cfg (b0 ++ phraseText first more ++ b1) =
+      .ok (match cfg.db (phraseText first more) with
+        | .found c => ([.ok { value := c.value, unit := c.unit }],
+            if cfg.describe then
+              [{ phrase := phraseText first more, description := c.description }] else [])
+        | .nothing => ([.error (.err .missing (utf8Len b0)
+            (utf8Len b0 + utf8Len (phraseText first more)))], [])
+        | .error => ([.error (.err .lookupError (utf8Len b0)
+            (utf8Len b0 + utf8Len (phraseText first more)))], [])) := by
+  obtain ⟨forest, hparse, Wt, x, Wt', hf, hWt, hWt', hx⟩ :=
+    parse_renderF (.fact first more) [b0, b1] hp (queryLayout_fact first more b0 b1 h0 h1)
+  rw [renderQuery_fact] at hparse
+  obtain ⟨hk, hc, htx⟩ := repF_fact_inv hx
+  have hlead := phrase_lead first more b0 b1 hp h0 h1 forest Wt Wt' x hparse hf hWt htx
+  obtain ⟨off2, h2⟩ := queryLoop_ws cfg Wt' hWt' [] (0 + utf8Len b0 + x.len)
+  have hev : ∀ d, eval cfg (2 * size x + 2) ⟨0 + utf8Len b0, x⟩ d =
+      lookup cfg ⟨0 + utf8Len b0, x⟩ d := by
+    intro d
+    by_cases hm : more = []
+    · simp only [hm, ↓reduceIte] at hk
+      have : 2 * size x + 2 = (2 * size x + 1) + 1 := by omega
+      rw [this]; simp only [eval, hk]
+    · simp only [hm, ↓reduceIte] at hk
+      have : 2 * size x + 2 = (2 * size x + 1) + 1 := by omega
+      rw [this]; simp only [eval, hk]
+  unfold Eval.query
+  rw [hparse]
+  simp only
+  rw [hf, List.append_assoc, queryLoop_ws_off cfg Wt hWt, hlead]
+  simp only [List.singleton_append, kidsAt, queryLoop, repF_kind hx, Bool.false_eq_true,
+    ↓reduceIte, hev, lookup_apply, htx]
+  have h2' := fun d => h2 d
+  simp only [List.append_nil, kidsAt, queryLoop, Tree.len, htx, Nat.zero_add] at h2'
+  simp only [At.stop, Tree.len, htx, Nat.zero_add]
+  cases cfg.db (phraseText first more) with
+  | found c =>
+    simp only [h2']
+    cases cfg.describe <;> simp
+  | nothing => simp only [h2']
+  | error => simp only [h2']
+
 end Anything.FQ
